@@ -11,6 +11,7 @@ CONSTANTS
 INVARIANT TypeOK
 INVARIANT C20_EachVariableOnce
 INVARIANT C20_ReductionKeepsEquations
+INVARIANT C20_IteratorEvaluatesEquations
 INVARIANT C20_Closed
 INVARIANT C20_ResolvesSolverNames
 INVARIANT C20_LoopStateOwn
